@@ -219,12 +219,12 @@ def judge(stats: Stats, sub, expr, doc_bytes, opts, tag, real=False):
 
 # ------------------------------------------------------------------ inputs
 
-DOC = {"a": [1, 2, {"b": "x"}], "b": {"c": [True, None]}, "e": "é", "1": [0], "s": "abc", "e f": 5, "caf\u00e9": [1], "p%q": 7, "p%25q": 8}
+DOC = {"a": [1, 2, {"b": "x"}], "b": {"c": [True, None]}, "e": "é", "1": [0], "s": "abc", "e f": 5, "caf\u00e9": [1], "p%q": 7, "p%25q": 8, "\\u0062": 9}
 QUERIES_OK = ["$", "$.a", "$.a[*]", "$..b", "$.a[?@ > 1]", "$.a[?@.b == 'x']", "$.b.c[1:]", "$['e']", "$.zz", "$..*", "$[?length(@) > 1]", "$.a[-1]",
-              "$['\\u00e9']", "a", "$.a | $.s", "$[?match(@, 'a.c')]"]
+              "$['\\u00e9']", "a", "$.a | $.s", "$[?match(@, 'a.c')]", "$['\\u0061']", "$[?@ == '\\u0061bc']", "$['\\\\u0062']"]
 QUERIES_BAD = ["$[", "$.a[?", "$[?@.a ==]", "$.a[?length(@.*) > 1]", "$[?count(1) > 1]", "$[?foo(@)]", "$[?nosuch(@.a) == 1]", "$[9007199254740992]", "$[01]", "$['a',]",
                "$[?@.a == 'x", "$..", "$[?@ =~ /(/]", "$[1e400]", "$[?!length(@)]", "$[?1e400 == @]"]
-POINTERS_OK = ["", "/a", "/a/0", "/a/2/b", "/b/c/1", "/e", "/1/0", "/s", "/e%20f", "/caf%C3%A9/0", "/p%25q", "/e f", "/caf\u00e9"]
+POINTERS_OK = ["", "/a", "/a/0", "/a/2/b", "/b/c/1", "/e", "/1/0", "/s", "/e%20f", "/caf%C3%A9/0", "/p%25q", "/e f", "/caf\u00e9", "/\\u0061/0", "/\\u0062", "/\\u0073"]
 POINTERS_BAD = ["/zz", "/a/9", "/a/-", "/s/0", "a", "/a/x", "/b/c/2", "/a/01", "/\\u12", "/%zz"]
 PATCHES_OK = [[{"op": "add", "path": "/n", "value": 1}], [{"op": "remove", "path": "/a/0"}], [{"op": "replace", "path": "/e", "value": [1]}],
               [{"op": "move", "from": "/a/0", "path": "/b/m"}], [{"op": "copy", "from": "/b", "path": "/a/-"}], [{"op": "test", "path": "/a/0", "value": 1}],
